@@ -98,16 +98,25 @@ def run(prog, chk):
                     "the bytes buffered after a partial send must be exactly (data + k, size - k) where k is the value returned by send(data, size) "
                     "(0 on would-block): otherwise bytes are lost or duplicated")
     dr = [i for i in q.calls(run_) if run_.nodes[i].get("callee") == "Socket::send"]
+    # how run() designates the client of its write-ready arm: read off the object of the drain's send (`client.` / `writer->`)
+    OWN, OBJ = "client.", "client"
+    if dr:
+        o_ = q.call_object(run_, dr[0])
+        if o_ is not None:
+            me_ = run_.nodes[run_.strip(run_.nodes[dr[0]]["c"][0])]
+            base_ = q.no_casts(run_.r(o_))
+            OWN = base_ + ("->" if me_.get("arrow") else ".")
+            OBJ = ("*" + base_) if me_.get("arrow") else base_
     okd = False
     if len(dr) == 1:
         args = [q.no_casts(run_.r(x)) for x in q.call_args(run_, dr[0])]
         p = run_.up(dr[0])
         while p is not None and run_.nodes[p]["k"] != "DeclStmt":
             p = run_.up(p)
-        rf = [i for i, e in buffer_events(run_, r"client\.") if e == "removeFront"]
+        rf = [i for i, e in buffer_events(run_, re.escape(OWN)) if e == "removeFront"]
         if p is not None and rf:
             k = run_.nodes[p]["decls"][0]["n"]
-            okd = args[0].startswith("client._sendBuffer") and "size" not in args[0] and args[1] == "client._sendBuffer.size()" and \
+            okd = args[0].startswith(OWN + "_sendBuffer") and "size" not in args[0] and args[1] == OWN + "_sendBuffer.size()" and \
                 all(q.no_casts(run_.r(q.call_args(run_, x)[0])) == k for x in rf) and not [s for s in q.stores(run_) if run_.r(s.lhs) == k]
     if okd:
         chk.ok("C13.b", run_, "drain sends the whole backlog and drops exactly the sent prefix", run_.where(dr[0]), "send(_sendBuffer, size()) ... removeFront(sent)", evals=3)
@@ -134,14 +143,14 @@ def run(prog, chk):
                 chk.bad("C13.c", w, "failure-without-close", w.where(r), "write() returns false without queueing the client in _closingClients (no onClosed follows a failed write)")
     # ------------------------------------------------------------------ C13.d
     sites = []
-    for f, owner in ((w, "this->"), (run_, "client."), (sfn(prog, P + "ClientImpl::suspend"), "this->"), (sfn(prog, P + "ClientImpl::resume"), "this->")):
+    for f, owner in ((w, "this->"), (run_, OWN), (sfn(prog, P + "ClientImpl::suspend"), "this->"), (sfn(prog, P + "ClientImpl::resume"), "this->")):
         for c in q.calls(f):
             n = f.nodes[c]
             if not re.search(r"_sockets\.set\(", f.r(c)):
                 continue
             args = q.call_args(f, c)
             who = q.no_casts(f.r(args[0]))
-            if who not in ("*this", "client"):
+            if who not in ("*this", "client", OBJ):
                 continue
             if "ClientImpl" not in f.nodes[f.strip(args[0])].get("t", ""):
                 continue
@@ -196,7 +205,7 @@ def run(prog, chk):
         wrong = []
         for v in feas:
             # a modifying event between an isEmpty() test and the site invalidates the atom-derived emptiness: handled by `last`
-            val = fin.eval_expr(f, e, {ks: v[ks], ke: v[ke]})
+            val = fin.value_at(f, e, c, {ks: v[ks], ke: v[ke]})
             want = (0 if v[ks] else RF) | (0 if v[ke] else WF)
             if val is None or (val & (RF | WF)) != want or (val & ~(RF | WF)):
                 wrong.append((v[ks], v[ke], val, want))
@@ -289,9 +298,9 @@ def run(prog, chk):
     ow = [c for c, root, t in callback_calls(run_) if "onWrite" in t]
     if len(ow) == 1:
         atoms = fin.dominating_atoms(run_, run_.node_pos(ow[0]))
-        empty = any(a[0] != "case" and a[1] and fin.key(run_, a[0]) == "client._sendBuffer.isEmpty()" for a in atoms)
-        sets = [c for c in q.calls(run_) if re.search(r"_sockets\.set\(client, ", run_.r(c))]
-        pre = any(run_.dominates_pos(run_.node_pos(s), run_.node_pos(ow[0])) and any(a[0] != "case" and a[1] and fin.key(run_, a[0]) == "client._sendBuffer.isEmpty()" for a in fin.dominating_atoms(run_, run_.node_pos(s))) for s in sets)
+        empty = any(a[0] != "case" and a[1] and fin.key(run_, a[0]) == OWN + "_sendBuffer.isEmpty()" for a in atoms)
+        sets = [c for c in q.calls(run_) if q.no_casts(run_.r(c)).startswith("this->_sockets.set(%s, " % OBJ) or re.search(r"_sockets\.set\(%s, " % re.escape(OBJ), run_.r(c))]
+        pre = any(run_.dominates_pos(run_.node_pos(s), run_.node_pos(ow[0])) and any(a[0] != "case" and a[1] and fin.key(run_, a[0]) == OWN + "_sendBuffer.isEmpty()" for a in fin.dominating_atoms(run_, run_.node_pos(s))) for s in sets)
         if empty and pre:
             chk.ok("C13.g", run_, "onWrite after the drain, on the empty edge, after the interest set was recomputed", run_.where(ow[0]), "dominance", evals=3)
         else:
@@ -303,7 +312,7 @@ def run(prog, chk):
     bad = use_after_callback(run_)
     if bad:
         for call, use, nm in bad:
-            if "onWrite" in run_.r(call) or "client" == nm:
+            if "onWrite" in run_.r(call) or nm in ("client", OBJ.lstrip("*")):
                 chk.bad("C13.g", run_, "client-used-after-callback:" + run_.r(call).split("->")[-1].split("(")[0], run_.where(use),
                         "`%s` is used after `%s` returned: the callback may have removed the client (use after free), and what it registered is overwritten" % (nm, run_.r(call)[:40]))
     else:
